@@ -32,8 +32,8 @@ func ServerAddr(id uint64) string { return fmt.Sprintf(":%d", 7000+id) }
 // NewSNode allocates the node's disk. join = addresses of members to join ("" list = bootstrap node).
 func NewSNode(id uint64, join []string) *SNode {
 	Quiet()
-	n := &SNode{ID: id, Port: fmt.Sprint(7000 + id), DB: MemDB(), Join: join, Crashed: true}
-	serverenv.Disks[path.Join(n.dir(), "anndb")] = n.DB
+	n := &SNode{ID: id, Port: fmt.Sprint(7000 + id), Join: join, Crashed: true}
+	serverenv.Disks[path.Join(n.dir(), "anndb")] = nil // opened by the server's own badger.Open call (see serverenv.OpenDB)
 	return n
 }
 
@@ -47,7 +47,9 @@ func (n *SNode) Setup() error {
 		cfg.JoinNodes = nil
 	}
 	n.Srv = anndb.NewServer(cfg)
-	if err := n.Srv.VerifSetup(); err != nil {
+	err := n.Srv.VerifSetup()
+	n.DB = serverenv.Disks[path.Join(n.dir(), "anndb")]
+	if err != nil {
 		return err
 	}
 	n.Crashed = false
@@ -73,6 +75,8 @@ func (n *SNode) Close() {
 	if n.Srv != nil && n.Srv.VerifConn() != nil {
 		n.Srv.VerifConn().Close()
 	}
+	if db := serverenv.Disks[path.Join(n.dir(), "anndb")]; db != nil {
+		db.Close()
+	}
 	delete(serverenv.Disks, path.Join(n.dir(), "anndb"))
-	n.DB.Close()
 }
